@@ -1,5 +1,5 @@
-(* SymCoreC02List.v -- every list operation of the catalogue on a root pg.List refines the Python reference (PyList)
-   on the erasure of its items: same contents after, same value of the call, same error class. *)
+(* SymCoreC02List.v -- every list operation of the catalogue on a pg.List (at any position of the forest) refines the Python
+   reference (PyList) on the erasure of its items: same contents after, same value of the call, same error class. *)
 From Coq Require Import ZArith NArith List Bool Lia.
 Import ListNotations.
 From PG Require Import Common.Tactics Model.SymCoreDefs Model.SymCoreOps Model.SymCoreSpec Model.SymCoreC02
@@ -18,109 +18,125 @@ Definition err_of (e : PyList.pyerr) : err :=
   match e with PyList.PyIndexError => EIndex | PyList.PyKeyError => EKey | PyList.PyTypeError => EType | PyList.PyValueError => EValue end.
 
 Section ListOps.
-Variables (q : quirks) (sc : scope) (r : nat) (tid : N) (fl : flags).
-Hypothesis NQ : no_quirks q.
+Variables (q : quirks) (sc : scope) (ps : pos) (tid : N) (pa : option N) (fl : flags).
 
-Lemma wrote_intro : forall st st' its', root_is st' r tid KList fl its' -> clean its' -> keeps_other r st st' ->
-  wrote st r tid fl st' (evals its').
-Proof. intros; exists its'; auto. Qed.
-Lemma wrote_refl : forall st its, root_is st r tid KList fl its -> clean its -> wrote st r tid fl st (evals its).
-Proof. intros. apply wrote_intro; auto. apply keeps_other_refl. Qed.
+Lemma wrote_refl : forall st its, at_is st ps tid KList pa fl its -> clean its -> anc_clean st ps -> wfs st ->
+  wrote st ps tid pa fl st (evals its).
+Proof. intros. exists its. repeat split; auto. apply keeps_other_refl. Qed.
 Lemma wrote_step : forall st st1 st2 l1 l2,
-  wrote st r tid fl st1 l1 ->
-  (forall its1, root_is st1 r tid KList fl its1 -> clean its1 -> evals its1 = l1 -> wrote st1 r tid fl st2 l2) ->
-  wrote st r tid fl st2 l2.
+  wrote st ps tid pa fl st1 l1 ->
+  (forall its1, at_is st1 ps tid KList pa fl its1 -> clean its1 -> anc_clean st1 ps -> wfs st1 -> evals its1 = l1 -> wrote st1 ps tid pa fl st2 l2) ->
+  wrote st ps tid pa fl st2 l2.
 Proof.
-  intros st st1 st2 l1 l2 (its1 & R1 & C1 & E1 & K1) H.
-  destruct (H its1 R1 C1 E1) as (its2 & R2 & C2 & E2 & K2).
+  intros st st1 st2 l1 l2 (its1 & R1 & C1 & E1 & K1 & A1 & W1) H.
+  destruct (H its1 R1 C1 A1 W1 E1) as (its2 & R2 & C2 & E2 & K2 & A2 & W2).
   exists its2. repeat split; auto. eapply keeps_other_trans; eauto.
 Qed.
-(* change notification of the root list: MISSING_VALUE items are dropped (there are none) and the rest re-indexed *)
-Lemma wrote_purge : forall st st' l', wrote st r tid fl st' l' -> wrote st r tid fl (update_at st' (r, []) purge_list) l'.
+(* change notification of a clean, well-formed chain of lists changes nothing *)
+Lemma wrote_fix_chain : forall st st' l' (b : bool), wrote st ps tid pa fl st' l' ->
+  wrote st ps tid pa fl (if b then fix_chain st' ps else st') l'.
 Proof.
-  intros st st' l' (its' & R & C & E & K).
-  exists (renum [] its'). repeat split.
-  - unfold root_is. rewrite (get_root_update_at_same _ _ _ _ R). rewrite purge_list_clean; auto.
-  - apply clean_renum; auto.
-  - rewrite evals_renum; auto.
-  - eapply keeps_other_trans; eauto. apply keeps_other_update_at.
+  intros. destruct b; auto. destruct H as (its' & R & C & E & K & A & W).
+  rewrite fix_chain_id; auto. { exists its'; auto 10. }
+  intros pre suf i pa0 pt fl0 its0 ES G. destruct suf.
+  - rewrite app_nil_r in ES. subst pre. unfold at_is in R. rewrite <- surjective_pairing in G. rewrite R in G. inv G. auto.
+  - eapply A; eauto. discriminate.
 Qed.
-Lemma wrote_fix_chain : forall st st' l' (b : bool), wrote st r tid fl st' l' ->
-  wrote st r tid fl (if b then fix_chain st' (r, []) else st') l'.
-Proof. intros. destruct b; auto. rewrite fix_chain_root. apply wrote_purge; auto. Qed.
-Lemma wrote_notified : forall st st' l' p, wrote st r tid fl st' l' -> wrote st r tid fl (notified sc st' (r, []) p) l'.
+Lemma wrote_notified : forall st st' l' p, wrote st ps tid pa fl st' l' -> wrote st ps tid pa fl (notified sc st' ps p) l'.
 Proof. intros. unfold notified. destruct p; auto. apply wrote_fix_chain; auto. Qed.
 
-Lemma root_cur : forall st its, root_is st r tid KList fl its ->
-  cur_items st (r, []) = its /\ cur_path st (r, []) = [] /\ cur_len st (r, []) = zlen its.
-Proof. intros. apply (cur_items_facts st (r, []) tid KList None [] fl its). rewrite get_at_root; auto. Qed.
+Lemma at_cur : forall st its, at_is st ps tid KList pa fl its ->
+  cur_items st ps = its /\ cur_path st ps = snd ps /\ cur_len st ps = zlen its.
+Proof. intros. apply (cur_items_facts st ps tid KList pa (snd ps) fl its). exact H. Qed.
+Lemma at_children : forall st its, wfs st -> at_is st ps tid KList pa fl its ->
+  Forall (child_wf tid (snd ps)) its /\ positions 0 (map fst its).
+Proof. intros. destruct (container_facts _ _ _ _ _ _ _ _ H H0) as (_ & K & F). auto. Qed.
 
 (* --- extend ------------------------------------------------------------------------------------------------------------ *)
-Lemma extend_loop_root : forall rvs st its upd st' u e,
-  root_is st r tid KList fl its -> clean its -> Forall storable_rv rvs ->
-  extend_loop q sc st (r, []) rvs upd = (st', u, e) ->
-  e = None /\ wrote st r tid fl st' (evals its ++ map prv rvs).
+Lemma extend_loop_at : forall rvs st its upd st' u e,
+  at_is st ps tid KList pa fl its -> clean its -> anc_clean st ps -> wfs st -> Forall storable_rv rvs ->
+  extend_loop q sc st ps rvs upd = (st', u, e) ->
+  e = None /\ wrote st ps tid pa fl st' (evals its ++ map prv rvs).
 Proof.
-  induction rvs as [|rv rvs IH]; intros st its upd st' u e R C F E; simpl in E.
+  induction rvs as [|rv rvs IH]; intros st its upd st' u e R C A W F E; simpl in E.
   - inv E. split; auto. rewrite app_nil_r. apply wrote_refl; auto.
-  - inv F. destruct (root_cur _ _ R) as (_ & _ & CL). rewrite CL in E. clear CL.
-    destruct (lprim q sc st (r, []) (KI (zlen its)) rv) as [st1 p] eqn:L.
-    destruct (lprim_append q sc st r tid fl its R C (zlen its) rv st1 p H1 (Z.le_refl _) L) as (EP & its1 & R1 & C1 & E1 & K1).
-    subst p.
-    destruct (IH st1 its1 true st' u e R1 C1 H2 E) as (EE & W). split; auto.
-    eapply wrote_step. { exists its1; eauto. }
-    intros its1' R1' _ E1'. unfold root_is in R1, R1'. rewrite R1 in R1'. inv R1'.
-    rewrite E1 in W. simpl. rewrite <- app_assoc in W. exact W.
+  - inv F. destruct (at_cur _ _ R) as (_ & _ & CL). rewrite CL in E. clear CL.
+    destruct (lprim q sc st ps (KI (zlen its)) rv) as [st1 p] eqn:L.
+    destruct (lprim_append q sc st ps tid pa fl its R C A W (zlen its) rv st1 p H1 (Z.le_refl _) L) as (EP & WR).
+    subst p. pose proof WR as (its1 & R1 & C1 & E1 & K1 & A1 & W1).
+    destruct (IH st1 its1 true st' u e R1 C1 A1 W1 H2 E) as (EE & WW). split; auto.
+    eapply wrote_step; [exact WR|]. intros its1' R1' _ _ _ E1'.
+    unfold at_is in R1, R1'. rewrite R1 in R1'. inv R1'.
+    rewrite E1 in WW. simpl. rewrite <- app_assoc in WW. exact WW.
 Qed.
-Lemma extend_core_root : forall rvs st its st' out,
-  root_is st r tid KList fl its -> clean its -> Forall storable_rv rvs ->
-  extend_core q sc st (r, []) rvs = (st', out) ->
-  out = Ok RNone /\ wrote st r tid fl st' (evals its ++ map prv rvs).
+Lemma extend_core_at : forall rvs st its st' out,
+  at_is st ps tid KList pa fl its -> clean its -> anc_clean st ps -> wfs st -> Forall storable_rv rvs ->
+  extend_core q sc st ps rvs = (st', out) ->
+  out = Ok RNone /\ wrote st ps tid pa fl st' (evals its ++ map prv rvs).
 Proof.
-  intros rvs st its st' out R C F E. unfold extend_core in E.
-  destruct (extend_loop q sc st (r, []) rvs false) as [[st1 u] e] eqn:L.
-  destruct (extend_loop_root _ _ _ _ _ _ _ R C F L) as (EE & W). subst e. inv E. split; auto.
+  intros rvs st its st' out R C A W F E. unfold extend_core in E.
+  destruct (extend_loop q sc st ps rvs false) as [[st1 u] e] eqn:L.
+  destruct (extend_loop_at _ _ _ _ _ _ _ R C A W F L) as (EE & WR). subst e. inv E. split; auto.
   apply wrote_fix_chain; auto.
 Qed.
 
+(* new items for the target (re-indexed), some items detached *)
+Lemma items_replaced : forall st its its' gone,
+  at_is st ps tid KList pa fl its -> anc_clean st ps -> wfs st -> clean its' ->
+  Forall (child_wf_any tid (snd ps)) its' -> Forall (fun kv => exists ep pt, wf_node ep pt (snd kv)) gone ->
+  wrote st ps tid pa fl (detach_all (update_at st ps (set_items (renum (snd ps) its'))) gone) (evals its').
+Proof.
+  intros st its its' gone R A W C F G.
+  assert (W1 : wfs (update_at st ps (set_items (renum (snd ps) its')))) by (eapply wfs_list_items; eauto).
+  destruct (written_here' st ps tid pa fl its KList R A st (renum (snd ps) its') eq_refl) as (R1 & K1 & A1).
+  rewrite <- (evals_renum (snd ps)). exists (renum (snd ps) its'). repeat split.
+  - unfold at_is. eapply keeps_roots_get_at. apply keeps_roots_detach_all. exact R1.
+  - apply clean_renum; auto.
+  - eapply keeps_other_trans; eauto. apply keeps_roots_other. apply keeps_roots_detach_all.
+  - eapply anc_clean_keeps; [apply keeps_roots_detach_all| |exact A1]. eapply get_at_root_some; eauto.
+  - apply detach_all_wfs; auto.
+Qed.
+
 (* --- deletion of one position ------------------------------------------------------------------------------------------- *)
-Lemma ldel_core_root : forall st its idx st' ret,
-  root_is st r tid KList fl its -> clean its -> (idx < length its)%nat ->
-  ldel_core sc st (r, []) idx = (st', ret) ->
-  wrote st r tid fl st' (PyList.delete_nth idx (evals its)) /\
+Lemma ldel_core_at : forall st its idx st' ret,
+  at_is st ps tid KList pa fl its -> clean its -> anc_clean st ps -> wfs st -> (idx < length its)%nat ->
+  ldel_core sc st ps idx = (st', ret) ->
+  wrote st ps tid pa fl st' (PyList.delete_nth idx (evals its)) /\
   exists k0 old, nth_error its idx = Some (k0, old) /\ ret = ret_item st' old.
 Proof.
-  intros st its idx st' ret R C LT E. unfold ldel_core in E.
-  destruct (root_cur _ _ R) as (CI & CP & _). rewrite CI, CP in E. clear CI CP.
+  intros st its idx st' ret R C A W LT E. unfold ldel_core in E.
+  destruct (at_cur _ _ R) as (CI & CP & _). rewrite CI, CP in E. clear CI CP.
+  destruct (at_children _ _ W R) as (CF & KP).
   destruct (nth_error its idx) as [[k0 old]|] eqn:N.
   2:{ apply nth_error_None in N. lia. }
-  inv E. split; eauto.
-  apply wrote_fix_chain. rewrite <- evals_remove_nth, <- (evals_renum []).
-  exists (renum [] (remove_nth idx its)). repeat split; auto.
-  - apply keeps_roots_add_detached. unfold root_is. rewrite (get_root_update_at_same _ _ _ _ R). reflexivity.
-  - apply clean_renum. apply Forall_remove_nth; auto.
-  - red; intros. apply keeps_roots_add_detached. rewrite get_root_update_at_other; auto.
+  injection E as E1 E2. subst st' ret. split; eauto.
+  apply wrote_fix_chain. rewrite <- evals_remove_nth.
+  change (add_detached (update_at st ps (set_items (renum (snd ps) (remove_nth idx its)))) old)
+    with (detach_all (update_at st ps (set_items (renum (snd ps) (remove_nth idx its)))) [(k0, old)]).
+  eapply items_replaced; eauto.
+  - apply Forall_remove_nth; auto.
+  - apply child_wf_any_of. apply Forall_remove_nth; auto.
+  - constructor; auto. simpl. eapply Forall_nth_error in N; eauto. red in N. simpl in N. eauto.
 Qed.
 
 (* --- clear / reverse / sort ----------------------------------------------------------------------------------------------- *)
-Lemma clear_core_root : forall st its, root_is st r tid KList fl its -> wrote st r tid fl (clear_core sc st (r, []) its) [].
+Lemma clear_core_at : forall st its, at_is st ps tid KList pa fl its -> anc_clean st ps -> wfs st ->
+  wrote st ps tid pa fl (clear_core sc st ps its) [].
 Proof.
-  intros st its R. unfold clear_core.
-  assert (W : wrote st r tid fl (detach_all (update_at st (r, []) (set_items [])) its) (evals [])).
-  { exists []. repeat split; auto.
-    - apply keeps_roots_detach_all. unfold root_is. rewrite (get_root_update_at_same _ _ _ _ R). reflexivity.
-    - constructor.
-    - red; intros. apply keeps_roots_detach_all. rewrite get_root_update_at_other; auto. }
+  intros st its R A W. unfold clear_core.
+  destruct (at_children _ _ W R) as (CF & KP).
+  assert (WR : wrote st ps tid pa fl (detach_all (update_at st ps (set_items [])) its) (evals [])).
+  { change (set_items []) with (set_items (renum (snd ps) [])). eapply items_replaced; eauto; try constructor.
+    apply (children_wf_any tid (snd ps)); auto. }
   destruct its; auto. apply wrote_fix_chain; auto.
 Qed.
-Lemma reorder_core_root : forall st its its', root_is st r tid KList fl its -> clean its' ->
-  wrote st r tid fl (reorder_core sc st (r, []) [] its its') (evals its').
+Lemma reorder_core_at : forall st its its', at_is st ps tid KList pa fl its -> anc_clean st ps -> wfs st -> clean its' ->
+  Forall (child_wf_any tid (snd ps)) its' ->
+  wrote st ps tid pa fl (reorder_core sc st ps (snd ps) its its') (evals its').
 Proof.
-  intros st its its' R C. unfold reorder_core. apply wrote_fix_chain.
-  rewrite <- (evals_renum []). exists (renum [] its'). repeat split; auto.
-  - unfold root_is. rewrite (get_root_update_at_same _ _ _ _ R). reflexivity.
-  - apply clean_renum; auto.
-  - apply keeps_other_update_at.
+  intros st its its' R A W C F. unfold reorder_core. apply wrote_fix_chain.
+  change (update_at st ps (set_items (renum (snd ps) its'))) with (detach_all (update_at st ps (set_items (renum (snd ps) its'))) []).
+  eapply items_replaced; eauto.
 Qed.
 End ListOps.
 
@@ -246,62 +262,86 @@ Definition ret_agrees (st' : state) (out : outcome) (ret : PyList.lret pv) : Pro
   match ret with
   | PyList.LrNone => out = Ok RNone
   | PyList.LrVal v => exists old, out = Ok (ret_item st' old) /\ erase old = v
-  | PyList.LrList l => exists ri tid' fl' its', out = Ok (RPos (ri, [])) /\ root_is st' ri tid' KList fl' its' /\ clean its' /\ evals its' = l
+  | PyList.LrList l => exists ri tid' fl' its', out = Ok (RPos (ri, [])) /\ at_is st' (ri, []) tid' KList None fl' its' /\ clean its' /\ evals its' = l
   | _ => False
   end.
 Lemma plain_all_storable : forall vs, Forall plain_rv vs -> Forall storable_rv vs.
 Proof. induction 1; constructor; auto using plain_storable. Qed.
 
 Section ListRefine.
-Variables (q : quirks) (sc : scope) (r : nat) (tid : N) (fl : flags).
+Variables (q : quirks) (sc : scope) (ps : pos) (tid : N) (pa : option N) (fl : flags).
 Hypothesis NQ : no_quirks q.
 
 Lemma after_prim : forall st st1 p l' out st',
-  (p = PNone \/ p = PUpd) -> wrote st r tid fl st1 l' ->
-  match p with PErr e => (st1, Err e) | _ => (notified sc st1 (r, []) p, Ok RNone) end = (st', out) ->
-  wrote st r tid fl st' l' /\ out = Ok RNone.
+  (p = PNone \/ p = PUpd) -> wrote st ps tid pa fl st1 l' ->
+  match p with PErr e => (st1, Err e) | _ => (notified sc st1 ps p, Ok RNone) end = (st', out) ->
+  wrote st ps tid pa fl st' l' /\ out = Ok RNone.
 Proof. intros. destruct H; subst p; inv H1; split; auto; first [apply wrote_fix_chain; auto | apply wrote_notified; auto]. Qed.
 
+(* a new root list next to the forest: the target is untouched, the new list is a root of its own *)
+Lemma beside : forall st st1 c st2 its its0 tid' l2,
+  at_is st ps tid KList pa fl its -> clean its -> anc_clean st ps ->
+  roots st1 = roots st ->
+  wrote (add_root st1 c) (length (roots st1), []) tid' None default_flags st2 l2 ->
+  c = Node tid' KList None [] default_flags its0 ->
+  wrote st ps tid pa fl st2 (evals its) /\
+  exists its2, at_is st2 (length (roots st1), []) tid' KList None default_flags its2 /\ clean its2 /\ evals its2 = l2.
+Proof.
+  intros st st1 c st2 its its0 tid' l2 R C A RS (its2 & R2 & C2 & E2 & K2 & A2 & W2) EC. simpl in K2.
+  pose proof (get_at_lt _ _ _ R) as LT.
+  assert (NE : fst ps <> length (roots st1)) by (rewrite RS; lia).
+  assert (KO : keeps_other (fst ps) st st2 /\ forall t, get_root st (fst ps) = Some t -> get_root st2 (fst ps) = Some t).
+  { split.
+    - red; intros. apply K2. { pose proof (get_root_lt _ _ _ H0). rewrite RS. lia. }
+      apply get_root_add_root. rewrite (same_roots_get_root _ _ _ RS). auto.
+    - intros. apply K2; auto. apply get_root_add_root. rewrite (same_roots_get_root _ _ _ RS). auto. }
+  destruct KO as [KO KS]. destruct (get_at_root_some _ _ _ R) as [t0 G0].
+  assert (GE : forall p, get_at st2 (fst ps, p) = get_at st (fst ps, p)).
+  { intros. unfold get_at. simpl. rewrite (KS _ G0), G0. auto. }
+  split; [|eauto].
+  exists its. repeat split; auto.
+  - unfold at_is. rewrite (surjective_pairing ps). simpl. rewrite GE. rewrite <- surjective_pairing. exact R.
+  - unfold anc_clean in *. intros. rewrite GE in H1. eauto.
+Qed.
+
 Theorem exec_list_refines : forall st its ro lo st' out,
-  wfs st -> root_is st r tid KList fl its -> clean its -> permits sc fl -> plain_lop its ro -> lop_of ro = Some lo ->
-  exec q sc st (r, []) tid KList [] fl its ro = (st', out) ->
+  wfs st -> at_is st ps tid KList pa fl its -> clean its -> anc_clean st ps -> permits sc fl -> plain_lop its ro -> lop_of ro = Some lo ->
+  exec q sc st ps tid KList (snd ps) fl its ro = (st', out) ->
   match py_lstep (evals its) lo with
   | inr e => st' = st /\ out = Err (err_of e)
-  | inl (l', ret) => wrote st r tid fl st' l' /\ ret_agrees st' out ret
+  | inl (l', ret) => wrote st ps tid pa fl st' l' /\ ret_agrees st' out ret
   end.
 Proof.
-  intros st its ro lo st' out W R C [SL AW] PL LO E.
+  intros st its ro lo st' out W R C A [SL AW] PL LO E.
   pose proof (permits_default _ _ SL) as SLD.
-  assert (CF : Forall (child_wf tid []) its /\ positions 0 (map fst its)).
-  { red in R. rewrite <- get_at_root in R. destruct (container_facts _ _ _ _ _ _ _ _ W R) as (_ & K & F). auto. }
-  destruct CF as [CF KP].
+  destruct (at_children ps tid pa fl st its W R) as [CF KP].
   unfold py_lstep, PyList.lstep. rewrite len_evals.
   destruct ro; simpl in LO; inv LO; unfold exec in E; rewrite ?SL, ?AW, ?SLD in E; cbn [negb andb] in E; simpl in PL.
   - (* l[i] = v *)
     unfold PyList.norm_index. destruct ((i <? - zlen its) || (i >=? zlen its)) eqn:B.
     + inv E; auto.
-    + destruct (lprim q sc st (r, []) (KI i) v) as [st1 p] eqn:L.
-      destruct (lprim_replace q sc st r tid fl its R C i v st1 p PL ltac:(lia) L) as [PP WR].
+    + destruct (lprim q sc st ps (KI i) v) as [st1 p] eqn:L.
+      destruct (lprim_replace q sc st ps tid pa fl its R C A W i v st1 p PL ltac:(lia) L) as [PP WR].
       destruct (after_prim _ _ _ _ _ _ PP WR E); subst; split; [auto|reflexivity].
   - (* del l[i] *)
     unfold PyList.norm_index. destruct ((i <? - zlen its) || (i >=? zlen its)) eqn:B.
     + inv E; auto.
-    + destruct (ldel_core sc st (r, []) (Z.to_nat (if i <? 0 then i + zlen its else i))) as [st1 rt] eqn:L.
+    + destruct (ldel_core sc st ps (Z.to_nat (if i <? 0 then i + zlen its else i))) as [st1 rt] eqn:L.
       simpl in E. inv E.
       assert (LT : (Z.to_nat (if (i <? 0)%Z then (i + zlen its)%Z else i) < length its)%nat)
         by (unfold zlen in *; destruct (i <? 0) eqn:?; lia).
-      destruct (ldel_core_root sc r tid fl st its _ st' rt R C LT L) as [WR _].
+      destruct (ldel_core_at sc ps tid pa fl st its _ st' rt R C A W LT L) as [WR _].
       split; auto. reflexivity.
   - (* append *)
-    destruct (lprim q sc st (r, []) (KI (zlen its)) v) as [st1 p] eqn:L.
-    destruct (lprim_append q sc st r tid fl its R C _ v st1 p (plain_storable _ PL) (Z.le_refl _) L) as [PP WR].
+    destruct (lprim q sc st ps (KI (zlen its)) v) as [st1 p] eqn:L.
+    destruct (lprim_append q sc st ps tid pa fl its R C A W _ v st1 p (plain_storable _ PL) (Z.le_refl _) L) as [PP WR].
     destruct (after_prim _ _ _ _ _ _ (or_intror PP) WR E); subst; split; [auto|reflexivity].
   - (* insert *)
-    destruct (lprim q sc st (r, []) (KI i) (RIns v)) as [st1 p] eqn:L.
-    destruct (lprim_insert q sc st r tid fl its R C i v st1 p (plain_storable _ PL) L) as [PP WR].
+    destruct (lprim q sc st ps (KI i) (RIns v)) as [st1 p] eqn:L.
+    destruct (lprim_insert q sc st ps tid pa fl its R C A W i v st1 p (plain_storable _ PL) L) as [PP WR].
     destruct (after_prim _ _ _ _ _ _ (or_intror PP) WR E); subst; split; [auto|reflexivity].
   - (* extend *)
-    destruct (extend_core_root q sc r tid fl vs st its st' out R C (plain_all_storable _ PL) E) as [EO WR]. subst. split; auto. reflexivity.
+    destruct (extend_core_at q sc ps tid pa fl vs st its st' out R C A W (plain_all_storable _ PL) E) as [EO WR]. subst. split; auto. reflexivity.
   - (* pop *)
     unfold PyList.norm_index.
     set (j := match i with Some i0 => i0 | None => -1 end) in *.
@@ -310,73 +350,72 @@ Proof.
     + rewrite pop_position in E by lia.
       set (p := Z.to_nat (if j <? 0 then j + zlen its else j)) in *.
       assert (LT : (p < length its)%nat) by (unfold p, zlen in *; destruct (j <? 0) eqn:?; lia).
-      destruct (ldel_core sc st (r, []) p) as [st1 rt] eqn:L. inv E.
-      destruct (ldel_core_root sc r tid fl st its p st' rt R C LT L) as (WR & k0 & old & N & ER).
+      destruct (ldel_core sc st ps p) as [st1 rt] eqn:L. inv E.
+      destruct (ldel_core_at sc ps tid pa fl st its p st' rt R C A W LT L) as (WR & k0 & old & N & ER).
       rewrite nth_error_evals, N. simpl. split; auto. exists old; subst rt; auto.
   - (* remove *)
     rewrite find_index_remove in E.
     destruct (PyList.find_pos pv_pyeq (PLeaf (erase_leaf l)) (evals its) 0) as [p|] eqn:FP.
-    + destruct (ldel_core sc st (r, []) p) as [st1 rt] eqn:L. simpl in E. inv E.
+    + destruct (ldel_core sc st ps p) as [st1 rt] eqn:L. simpl in E. inv E.
       apply find_pos_lt in FP. rewrite evals_length in FP.
-      destruct (ldel_core_root sc r tid fl st its p st' rt R C ltac:(lia) L) as [WR _]. split; auto. reflexivity.
+      destruct (ldel_core_at sc ps tid pa fl st its p st' rt R C A W ltac:(lia) L) as [WR _]. split; auto. reflexivity.
     + inv E; auto.
   - (* clear *)
-    inv E. split; [apply clear_core_root; auto|reflexivity].
+    inv E. split; [apply clear_core_at; auto|reflexivity].
   - (* reverse *)
-    inv E. split; [|reflexivity]. rewrite <- evals_rev. apply reorder_core_root; auto. apply clean_rev; auto.
+    inv E. split; [|reflexivity]. rewrite <- evals_rev. apply reorder_core_at; auto. apply clean_rev; auto.
+    apply child_wf_any_of. apply Forall_rev; auto.
   - (* sort *)
-    inv E. split; [|reflexivity]. unfold evals. rewrite <- sort_map. apply reorder_core_root; auto.
-    apply sorted_forall; auto.
+    inv E. split; [|reflexivity]. unfold evals. rewrite <- sort_map. apply reorder_core_at; auto.
+    + apply sorted_forall; auto.
+    + apply sorted_forall. apply child_wf_any_of; auto.
   - (* += *)
-    destruct (extend_core_root q sc r tid fl vs st its st' out R C (plain_all_storable _ PL) E) as [EO WR]. subst. split; auto. reflexivity.
+    destruct (extend_core_at q sc ps tid pa fl vs st its st' out R C A W (plain_all_storable _ PL) E) as [EO WR]. subst. split; auto. reflexivity.
   - (* *= *)
     destruct (n <=? 0) eqn:B.
-    + inv E. replace (Z.to_nat n) with O by lia. simpl. split; [apply clear_core_root; auto|reflexivity].
+    + inv E. replace (Z.to_nat n) with O by lia. simpl. split; [apply clear_core_at; auto|reflexivity].
     + destruct (flat_items its PL C) as [FS FM].
       rewrite repeat_list_app in E.
-      destruct (extend_core_root q sc r tid fl _ st its st' out R C (Forall_repeat_app _ _ _ _ FS) E) as [EO WR]. subst.
+      destruct (extend_core_at q sc ps tid pa fl _ st its st' out R C A W (Forall_repeat_app _ _ _ _ FS) E) as [EO WR]. subst.
       split; [|reflexivity]. rewrite map_repeat_app, FM in WR.
       replace (Z.to_nat n) with (S (Z.to_nat (n - 1))) by lia. exact WR.
   - (* + *)
     destruct (new_list_from q st its) as [c st1] eqn:NL.
-    destruct (new_list_from_root q st tid [] its c st1 NQ CF KP C NL) as (RS & tid' & its0 & EC & EV & CC). subst c.
-    destruct (extend_core q sc (add_root st1 (Node tid' KList None [] default_flags its0)) (length (roots st1), []) vs) as [st2 o2] eqn:X.
-    assert (R0 : root_is (add_root st1 (Node tid' KList None [] default_flags its0)) (length (roots st1)) tid' KList default_flags its0)
-      by apply get_root_add_root_new.
-    destruct (extend_core_root q sc _ tid' default_flags vs _ its0 st2 o2 R0 CC (plain_all_storable _ PL) X) as [EO (its2 & R2 & C2 & E2 & K2)].
-    subst o2. inv E. split.
-    + apply wrote_intro; auto.
-      * apply K2. { pose proof (get_root_lt _ _ _ R). rewrite RS. lia. }
-        apply get_root_add_root. rewrite (same_roots_get_root _ _ _ RS). exact R.
-      * red; intros. apply K2. { pose proof (get_root_lt _ _ _ H0). rewrite RS. lia. }
-        apply get_root_add_root. rewrite (same_roots_get_root _ _ _ RS). auto.
-    + exists (length (roots st1)), tid', default_flags, its2. repeat split; auto. rewrite E2, EV. reflexivity.
+    destruct (new_list_from_root q st tid (snd ps) its c st1 NQ CF KP C NL) as (RS & tid' & its0 & EC & EV & CC).
+    destruct (new_list_from_wfs q st its c st1 tid (snd ps) W CF NL) as (W1 & NC & WC).
+    match type of E with context [extend_core ?a ?b ?c ?d ?e] => destruct (extend_core a b c d e) as [st2 o2] eqn:X end.
+    assert (R0 : at_is (add_root st1 c) (length (roots st1), []) tid' KList None default_flags its0).
+    { unfold at_is. rewrite get_at_root. subst c. apply get_root_add_root_new. }
+    destruct (extend_core_at q sc _ tid' None default_flags vs _ its0 st2 o2 R0 CC (anc_clean_root _ _) (wfs_add_root _ _ W1 NC WC)
+                (plain_all_storable _ PL) X) as [EO WR2].
+    subst o2. inv E.
+    destruct (beside st st1 _ st' its its0 tid' _ R C A RS WR2 eq_refl) as (WT & its2 & R2 & C2 & E2).
+    split; auto. exists (length (roots st1)), tid', default_flags, its2. repeat split; auto. rewrite E2, EV. reflexivity.
   - (* * *)
     rewrite andb_false_r in E.
     destruct (new_list_from q st []) as [c st1] eqn:NL.
-    destruct (new_list_from_root q st tid [] [] c st1 NQ ltac:(constructor) I ltac:(constructor) NL) as (RS & tid' & its0 & EC & EV & CC). subst c.
+    destruct (new_list_from_root q st tid (snd ps) [] c st1 NQ ltac:(constructor) I ltac:(constructor) NL) as (RS & tid' & its0 & EC & EV & CC).
+    destruct (new_list_from_wfs q st [] c st1 tid (snd ps) W ltac:(constructor) NL) as (W1 & NC & WC).
     destruct its0; [|discriminate].
     destruct (flat_items its PL C) as [FS FM]. rewrite repeat_list_app in E.
     match type of E with context [extend_loop ?a ?b ?c ?d ?e ?f] => destruct (extend_loop a b c d e f) as [[st2 u2] e2] eqn:X end.
-    assert (R0 : root_is (add_root st1 (Node tid' KList None [] default_flags [])) (length (roots st1)) tid' KList default_flags [])
-      by apply get_root_add_root_new.
-    destruct (extend_loop_root q sc _ tid' default_flags _ _ [] false st2 u2 e2 R0 ltac:(constructor) (Forall_repeat_app _ _ _ _ FS) X)
-      as [EO (its2 & R2 & C2 & E2 & K2)].
-    subst e2. inv E. split.
-    + apply wrote_intro; auto.
-      * apply K2. { pose proof (get_root_lt _ _ _ R). rewrite RS. lia. }
-        apply get_root_add_root. rewrite (same_roots_get_root _ _ _ RS). exact R.
-      * red; intros. apply K2. { pose proof (get_root_lt _ _ _ H0). rewrite RS. lia. }
-        apply get_root_add_root. rewrite (same_roots_get_root _ _ _ RS). auto.
-    + exists (length (roots st1)), tid', default_flags, its2. repeat split; auto.
-      rewrite E2. simpl. rewrite map_repeat_app, FM. reflexivity.
+    assert (R0 : at_is (add_root st1 c) (length (roots st1), []) tid' KList None default_flags []).
+    { unfold at_is. rewrite get_at_root. subst c. apply get_root_add_root_new. }
+    destruct (extend_loop_at q sc _ tid' None default_flags _ _ [] false st2 u2 e2 R0 ltac:(constructor) (anc_clean_root _ _)
+                (wfs_add_root _ _ W1 NC WC) (Forall_repeat_app _ _ _ _ FS) X) as [EO WR2].
+    subst e2. inv E.
+    destruct (beside st st1 _ st' its [] tid' _ R C A RS WR2 eq_refl) as (WT & its2 & R2 & C2 & E2).
+    split; auto. exists (length (roots st1)), tid', default_flags, its2. repeat split; auto.
+    rewrite E2. simpl. rewrite map_repeat_app, FM. reflexivity.
   - (* copy *)
     destruct (new_list_from q st its) as [c st1] eqn:NL.
-    destruct (new_list_from_root q st tid [] its c st1 NQ CF KP C NL) as (RS & tid' & its0 & EC & EV & CC). subst c.
-    inv E. split.
-    + apply wrote_intro; auto.
-      * apply get_root_add_root. rewrite (same_roots_get_root _ _ _ RS). exact R.
-      * red; intros. apply get_root_add_root. rewrite (same_roots_get_root _ _ _ RS). auto.
-    + exists (length (roots st1)), tid', default_flags, its0. repeat split; auto. apply get_root_add_root_new.
+    destruct (new_list_from_root q st tid (snd ps) its c st1 NQ CF KP C NL) as (RS & tid' & its0 & EC & EV & CC).
+    destruct (new_list_from_wfs q st its c st1 tid (snd ps) W CF NL) as (W1 & NC & WC).
+    inv E.
+    assert (R0 : at_is (add_root st1 (Node tid' KList None [] default_flags its0)) (length (roots st1), []) tid' KList None default_flags its0).
+    { unfold at_is. rewrite get_at_root. apply get_root_add_root_new. }
+    pose proof (wrote_refl (length (roots st1), []) tid' None default_flags _ its0 R0 CC (anc_clean_root _ _) (wfs_add_root _ _ W1 NC WC)) as WR2.
+    destruct (beside st st1 _ _ its its0 tid' _ R C A RS WR2 eq_refl) as (WT & its2 & R2 & C2 & E2).
+    split; auto. exists (length (roots st1)), tid', default_flags, its2. repeat split; auto. congruence.
 Qed.
 End ListRefine.
